@@ -60,13 +60,13 @@ type VCreditType struct {
 	Precision          int64
 }
 type VBasket struct {
-	ID                 uint64
-	Denom, Name        string
-	DisableAutoRetire  bool
-	Credit             string
-	Criteria           string // Coq term of the date criteria
-	Exponent           int64
-	Curator            int
+	ID                uint64
+	Denom, Name       string
+	DisableAutoRetire bool
+	Credit            string
+	Criteria          string // Coq term of the date criteria
+	Exponent          int64
+	Curator           int
 }
 type VBasketClass struct {
 	BasketID uint64
